@@ -1,9 +1,11 @@
 package main
 
 import (
+	"fmt"
 	"math/rand"
 	"os"
 	"strconv"
+	"strings"
 
 	"github.com/inspirer/textmapper/lalr"
 )
@@ -11,6 +13,7 @@ import (
 func init() {
 	register("c08-run", c08Run)
 	register("c08-random", c08Random)
+	register("c08-rt", c08RTRun)
 }
 
 type c08Lit struct {
@@ -132,6 +135,126 @@ func c08Random(args []string) error {
 		}
 		c08Exec(c)
 		if err := w.Write(c); err != nil {
+			return err
+		}
+	}
+	return w.Close()
+}
+
+// ---- run-time layer: the generated code that executes the decision list
+
+type c08RT struct {
+	ID          int        `json:"id"`
+	Alts        [][]c08Lit `json:"alts"`
+	Cancellable bool       `json:"cancellable"`
+	TM          string     `json:"tmtext"`
+	GenErr      string     `json:"genErr"`
+	Chosen      []int      `json:"chosen"` // per assignment (bit j-1 set: input j matches): the alternative whose node was reported, 0 none
+	Errs        []string   `json:"errs"`
+}
+
+const c08Adapter = `
+%%
+{{define "onAfterParser"}}
+// VerifEvents parses text and returns the listener calls as "Name offset endoffset".
+func VerifEvents(text string) (events []string, errMsg string) {
+	defer func() {
+		if r := recover(); r != nil {
+			errMsg = "fmt".Sprint("panic: ", r)
+		}
+	}()
+	events = []string{}
+	var l Lexer
+	l.Init(text)
+	var p Parser
+	p.Init(func(t NodeType, offset, endoffset int) {
+		events = append(events, "fmt".Sprintf("%v %v %v", t, offset, endoffset))
+	})
+	if err := p.Parse({{if .Options.Cancellable}}"context".Background(), {{end}}&l); err != nil {
+		return events, err.Error()
+	}
+	return events, ""
+}
+{{end}}
+`
+
+// c08-rt <in.ndjson> <mod-dir> <out.ndjson> <max>: accepted alternative sets as generated parsers, run on all 8 assignments
+func c08RTRun(args []string) error {
+	cases, err := readNDJSON[c08Case](args[0])
+	if err != nil {
+		return err
+	}
+	max, _ := strconv.Atoi(args[3])
+	var recs []*c08RT
+	var items []*evItem
+	for i := range cases {
+		c := &cases[i]
+		if !c.Accepted || !c.OK || len(recs) >= max {
+			continue
+		}
+		for _, canc := range []bool{false, true} {
+			rec := &c08RT{ID: len(recs), Alts: c.Alts, Cancellable: canc, Chosen: []int{}, Errs: []string{}}
+			pkg := fmt.Sprintf("k%d", len(recs))
+			var b strings.Builder
+			fmt.Fprintf(&b, "language %s(go);\n\npackage = \"rt/%s\"\neventBased = true\n", pkg, pkg)
+			if canc {
+				b.WriteString("cancellable = true\n")
+			}
+			b.WriteString("\n:: lexer\n\nWS: /[ \\n]+/ (space)\nty: /y/\ntn: /n/\ntx: /x/\n\n:: parser\n\n%input S;\n\nS -> Root:\n    tx Alt ;\n\nAlt:\n")
+			for k, alt := range c.Alts {
+				var ps []string
+				for _, lit := range alt {
+					p := fmt.Sprintf("P%d", lit.Input)
+					if lit.Neg {
+						p = "!" + p
+					}
+					ps = append(ps, p)
+				}
+				sep := "  | "
+				if k == 0 {
+					sep = "    "
+				}
+				fmt.Fprintf(&b, "%s(?= %s) Any Any Any -> Alt%d\n", sep, strings.Join(ps, " & "), k+1)
+			}
+			b.WriteString(";\n\nAny:\n    ty | tn ;\n\nP1:\n    ty Any Any ;\n\nP2:\n    Any ty Any ;\n\nP3:\n    Any Any ty ;\n")
+			rec.TM = b.String() + c08Adapter
+			it := &evItem{Pkg: pkg, TM: rec.TM}
+			for asg := 0; asg < 8; asg++ {
+				t := "x"
+				for j := 0; j < 3; j++ {
+					if asg&(1<<j) != 0 {
+						t += " y"
+					} else {
+						t += " n"
+					}
+				}
+				it.Texts = append(it.Texts, t+" ")
+			}
+			recs = append(recs, rec)
+			items = append(items, it)
+		}
+	}
+	if err := evPipeline(args[1], items); err != nil {
+		return err
+	}
+	w, err := newNDWriter(args[2])
+	if err != nil {
+		return err
+	}
+	for i, rec := range recs {
+		it := items[i]
+		rec.GenErr = it.GenErr
+		for k := range it.Events {
+			chosen := 0
+			for _, ev := range it.Events[k] {
+				if strings.HasPrefix(ev, "Alt") {
+					chosen, _ = strconv.Atoi(strings.Fields(ev)[0][3:])
+				}
+			}
+			rec.Chosen = append(rec.Chosen, chosen)
+			rec.Errs = append(rec.Errs, it.Errs[k])
+		}
+		if err := w.Write(rec); err != nil {
 			return err
 		}
 	}
